@@ -1,6 +1,7 @@
 import Kvass.Driver.Coord
 import Kvass.Driver.K8s
 import Kvass.Driver.Sidecar
+import Kvass.Driver.Store
 
 open Kvass.Driver
 
@@ -18,4 +19,5 @@ def main (args : List String) : IO UInt32 := do
   | ["coord"] => loop stdin Coord.handle; return 0
   | ["k8s"] => loop stdin K8s.handle; return 0
   | ["sidecar"] => loop stdin Sidecar.handle; return 0
+  | ["store"] => loop stdin Store.handle; return 0
   | _ => IO.eprintln "usage: driver <engine>"; return 2
